@@ -10,7 +10,7 @@ OUT=/tmp/seedeval; mkdir -p "$OUT"
 WT="$(mktemp -d /tmp/evalseed_XXXXXX)"; rmdir "$WT"
 git -C /repo worktree add -q --detach "$WT" HEAD || exit 2
 cp -r "$SD/_seed" "$WT/_seed"
-cd "$WT"
+cd "$WT"; export PYTHONPATH="$WT"
 # without the change
 timeout 600 /venv/bin/python _seed/demo$N.py > "$OUT/$NAME.demo_clean.txt" 2>&1; D0=$?
 if ! git apply "$SD/_seed/patch$N.diff"; then echo "{\"name\":\"$NAME\",\"error\":\"patch does not apply\"}" > "$OUT/$NAME.json"; cd /; git -C /repo worktree remove --force "$WT"; exit 2; fi
